@@ -6,9 +6,8 @@
 //	    k = observed canonical key; new -> push
 //
 // The executions of one level are spread over Par executor goroutines, each with
-// its own allocator. Which history becomes the representative of a state depends
-// on goroutine timing; the set of states, the transitions executed and every
-// verdict do not.
+// its own allocator; representatives are chosen after each level in history
+// order, so states, transitions and verdicts do not depend on goroutine timing.
 package main
 
 import (
@@ -89,12 +88,13 @@ func (e *seqExec) bytesCheck(a *memory.Allocator, t *Tracker) *Fail {
 		}
 		return w
 	}
+	t0 := time.Now()
 	for i := 0; ; i++ {
 		w, g := want(), a.Bytes.Load()
 		if w == g {
 			return nil
 		}
-		if !e.u.Fresh || i > 600000 {
+		if !e.u.Fresh || time.Since(t0) > awaitBound {
 			e.noByte.Store(true)
 			return failf("bytes-counter", "Allocator.Bytes = %d, but shared pages in use (%d) + cached pages + live private mappings amount to %d", g, a.SharedMmaps.Load(), w)
 		}
@@ -400,7 +400,7 @@ func runSeq(u *Unit, res *UnitResult, cur *curFile) {
 	var mu sync.Mutex
 	addFail := func(h []int8, o runOut) {
 		res.Fails = append(res.Fails, FailRec{Kind: o.fail.Kind, Step: o.step, Len: len(h),
-			What: fmt.Sprintf("unit %s, initial configuration %q, history %v: after operation %d: %s", u.Name, u.Prelude, describe(u, h), o.step+1, o.fail.What),
+			What:   fmt.Sprintf("unit %s, initial configuration %q, history %v: after operation %d: %s", u.Name, u.Prelude, describe(u, h), o.step+1, o.fail.What),
 			Replay: map[string]interface{}{"part": "seq", "unit": replayUnit(u), "history": histInts(h), "ops": describe(u, h)}})
 	}
 	// replay of a single history
@@ -470,6 +470,14 @@ func runSeq(u *Unit, res *UnitResult, cur *curFile) {
 			sig [16]byte
 		}
 		var extraSigs []sigRec
+		// successors found in this level; reps/merges are decided after the level in
+		// history order, so that nothing depends on goroutine timing
+		type foundRec struct {
+			h   []int8
+			k   [16]byte
+			key string
+		}
+		var found []foundRec
 		expand := func(e *seqExec, x ext) {
 			live := liveOf(x.h)
 			var sig []string
@@ -500,22 +508,12 @@ func runSeq(u *Unit, res *UnitResult, cur *curFile) {
 				} else {
 					res.Cov["free"]++
 				}
-				if !x.rep {
-					return
-				}
-				if _, ok := seen[k]; !ok {
-					seen[k] = struct{}{}
-					addKey(k)
-					next = append(next, ext{h2, k, true})
-					if samples < 2 && len(h2) >= 4 {
-						samples++
-						res.Samples = append(res.Samples, map[string]interface{}{"unit": u.Name, "prelude": u.Prelude, "history": describe(u, h2), "state_key": o.key})
+				if x.rep {
+					ks := ""
+					if samples < 2 {
+						ks = o.key
 					}
-				} else {
-					res.Merged++
-					if u.DiffMod > 0 && len(h2) < u.Depth && fnv(h2)%uint32(u.DiffMod) == 0 {
-						nextExtras = append(nextExtras, ext{h2, k, false})
-					}
+					found = append(found, foundRec{h2, k, ks})
 				}
 			}
 			if live < u.MaxLive {
@@ -570,12 +568,27 @@ func runSeq(u *Unit, res *UnitResult, cur *curFile) {
 				}
 			}
 		}
+		sort.Slice(found, func(i, j int) bool { return string(int8s(found[i].h)) < string(int8s(found[j].h)) })
+		for _, f := range found {
+			if _, ok := seen[f.k]; !ok {
+				seen[f.k] = struct{}{}
+				addKey(f.k)
+				next = append(next, ext{f.h, f.k, true})
+				if samples < 2 && len(f.h) >= 4 {
+					samples++
+					res.Samples = append(res.Samples, map[string]interface{}{"unit": u.Name, "prelude": u.Prelude, "history": describe(u, f.h), "state_key": f.key})
+				}
+			} else {
+				res.Merged++
+				if u.DiffMod > 0 && len(f.h) < u.Depth && fnv(f.h)%uint32(u.DiffMod) == 0 {
+					nextExtras = append(nextExtras, ext{f.h, f.k, false})
+				}
+			}
+		}
 		if len(next) > 0 {
 			res.MaxDepth = d + 1
 		}
 		res.PerDepth = append(res.PerDepth, len(next))
-		// canonical order of the next frontier (goroutine timing decided the append order)
-		sort.Slice(next, func(i, j int) bool { return string(int8s(next[i].h)) < string(int8s(next[j].h)) })
 		frontier = append(next, nextExtras...)
 		if len(succSig) > 3_000_000 {
 			// only signatures of the level being expanded are compared; older ones are
